@@ -297,7 +297,6 @@ func (p *Program) namedStruct(pkg, name string) *types.Struct {
 	return st
 }
 
-
 // isUnknownHelper: a module function the rule tables do not know (see known_funcs.go): rules look through it.
 func isUnknownHelper(f *ssa.Function) bool {
 	return f != nil && len(f.Blocks) > 0 && f.Parent() == nil && strings.HasPrefix(funcPkgPath(f), modPath) && !knownFuncs[knownKey(f)]
@@ -502,7 +501,11 @@ func acceptsAllWords(re *syntax.Regexp) bool {
 	return false
 }
 
-func init() { register("C09", ruleC09WordToken); register("C02", ruleC09WordToken); register("C01", ruleC09WordToken) }
+func init() {
+	register("C09", ruleC09WordToken)
+	register("C02", ruleC09WordToken)
+	register("C01", ruleC09WordToken)
+}
 
 // ruleC09WordToken: a key is a token whatever its first character.
 func ruleC09WordToken(c *Ctx) {
@@ -534,7 +537,6 @@ func ruleC09WordToken(c *Ctx) {
 	}
 }
 
-
 // isFreshSliceTerm: the term is a slice made on the spot (make([]T, n) with a variable or a constant size, or a literal).
 func isFreshSliceTerm(t *Term) bool {
 	if t == nil {
@@ -545,7 +547,6 @@ func isFreshSliceTerm(t *Term) bool {
 	}
 	return t.Op == "slice" && len(t.Args) > 0 && t.Args[0].Op == "alloc" && (strings.HasPrefix(t.Args[0].Name, "makeslice") || strings.HasPrefix(t.Args[0].Name, "slicelit"))
 }
-
 
 // mentionsLetters: some character class of the pattern contains the lower-case letters (the pattern tokenises names).
 func mentionsLetters(re *syntax.Regexp) bool {
